@@ -20,6 +20,15 @@
 (*             in two From fields, x first) | group (x, y) | group1 (x)    *)
 (*           style = how the single address of layout "one" is written     *)
 (*   sender  the Sender address or NoItem                                  *)
+(*   chk     check_header yes / no (envelope-only mode, a documented setting)*)
+(*   sasl    how the session was authenticated: [mech, az]; az = the SASL   *)
+(*           authorization identity: "empty" | "same" (= the user name) |   *)
+(*           "other" (the name of the other account).  auth is always the   *)
+(*           account whose password was verified (the authentication id).   *)
+(*   nb      a neighbour check in the same check block that fails at the    *)
+(*           sender and body stages with this action: "absent" (no such     *)
+(*           check) | "none" (it passes) | "quarantine" | "reject"           *)
+(*   fam     the row family (bookkeeping only)                              *)
 (* Addresses [a, v]: a = which mailbox, v = how it is spelled; all         *)
 (* spellings of a mailbox are the same address (case, NFC/NFD, full-width, *)
 (* A-label/U-label domain).                                                *)
@@ -27,6 +36,10 @@
 (*   peer  bob@example.org (V's own)   foreign mallory@evil.example        *)
 (*   look  zoe@example.org.evil.example    sub   zoe@mail.example.org      *)
 (*   suffix zoe@evilexample.org                                            *)
+(*   null  the null reverse-path MAIL FROM:<> (envelope only): nobody's     *)
+(*         address, nobody is entitled to it                                *)
+(*   pm    "postmaster" without a domain (envelope only): an address like   *)
+(*         any other, covered only by "*"                                   *)
 (*                                                                         *)
 (* Prop   the listed property, one-sided: accepted => entitled.            *)
 (* Rule   the documented algorithm (docs/reference/checks/                 *)
@@ -37,7 +50,7 @@
 EXTENDS Naturals, Sequences, FiniteSets, TLC, Json
 
 CONSTANTS Devs,      \* enabled deviations
-          Families,  \* which row families to enumerate: subset of {"A", "B"}
+          Families,  \* which row families to enumerate: subset of {"A", "B", "C"}
           Gen        \* TRUE: print every row
 
 VARIABLE in
@@ -58,7 +71,7 @@ Ent(tbl, u) ==
   IF u = "U" THEN CASE tbl = "identity" -> {"self"}
                     [] tbl = "list"     -> {"self", "alias"}
                     [] tbl = "domain"   -> {"self", "alias", "peer"}
-                    [] tbl = "star"     -> Addrs
+                    [] tbl = "star"     -> Addrs \cup {"pm"}      \* any address; the null path is none
                     [] tbl = "absent"   -> {}
                     [] tbl = "prepare"  -> {"self", "alias"}
   ELSE IF u = "V" /\ tbl \in {"identity", "prepare"} THEN {"peer"}
@@ -80,10 +93,15 @@ AllFrom(f) == UNION {{FromFields(f)[i][j] : j \in 1..Len(FromFields(f)[i])} : i 
     every address in a From field, or the Sender address when the From address is
     not the user's - are addresses the authenticated user is entitled to ...
     and unauthenticated clients are refused" *)
+(* With check_header no the operator asked for the envelope rule only (weaker reading:
+   the header clause is then not demanded).  "The authenticated user" is r.auth, the
+   account whose password was verified, whatever authorization identity the client
+   claimed and whatever other checks of the pipeline say. *)
 MustReject(r) ==
   \/ r.auth.a = "none"
   \/ ~Entitled(r, r.mf)
-  \/ /\ \E it \in AllFrom(r.from) : ~Entitled(r, it)
+  \/ /\ r.chk
+     /\ \E it \in AllFrom(r.from) : ~Entitled(r, it)
      /\ (r.sender = NoItem \/ ~Entitled(r, r.sender))
 
 Prop(r, out) == out.accepted => ~MustReject(r)
@@ -114,7 +132,13 @@ Match(r, it0) ==
       \* prepare_email: static alias -> own address of U, keyed by the canonical spelling
       it == IF r.tbl = "prepare" /\ it0.a = "alias" /\ NC(n, it0.v) = NC(n, "plain") THEN P("self") ELSE it0
       found == r.auth.a = "U" /\ NC(n, r.auth.v) = NC(n, "plain")      \* static tables are keyed by "U" canonical
-  IN CASE r.tbl \in {"identity", "prepare"} ->
+  IN IF it0.a = "null" THEN FALSE          \* "" cannot be split into mailbox and domain: refused
+     ELSE IF it0.a = "pm"
+     \* the e-mail normalisers turn it into "postmaster@", which the lookup refuses;
+     \* the others leave a string that only "*" covers
+     THEN r.tbl = "star" /\ found /\ n \in {"precis_casefold", "precis", "casefold", "noop"}
+     ELSE
+     CASE r.tbl \in {"identity", "prepare"} ->
             \* the entry is the normalised user name itself
             it.a = Own(r.auth.a) /\ NC(n, it.v) = NC(n, r.auth.v)
        [] r.tbl = "list"   -> found /\ it.a \in {"self", "alias"} /\ NC(n, it.v) = NC(n, "plain")
@@ -130,7 +154,10 @@ Rule(r, D) ==
       ff  == IF "FirstFromOnly" \in D /\ Len(ff0) > 1 THEN <<ff0[1]>> ELSE ff0
   IN
   IF r.auth.a = "none" THEN No("unauthenticated")
+  ELSE IF r.sasl.az = "other" THEN No("authzid")          \* such an AUTH is refused, no session
+  ELSE IF r.nb = "reject" THEN No("neighbour")
   ELSE IF ~Match(r, r.mf) THEN No("envelope")
+  ELSE IF ~r.chk THEN Yes
   ELSE IF Len(ff) = 0 THEN No("no-from")
   ELSE IF Len(ff) > 1 THEN No("several-from-fields")
   ELSE IF Len(ff[1]) > 1 THEN No("several-from-addresses")
@@ -146,6 +173,7 @@ FromGroup1(X) == [layout : {"group1"}, x : X, y : {NoItem}, style : {"angle"}]
 
 Plain(S) == {P(a) : a \in S}
 AuthNone == Item("none", "plain")
+Sasl0 == [mech |-> "PLAIN", az |-> "empty"]
 
 (* family A: who is entitled to what, every header layout, canonical spellings *)
 RowsA ==
@@ -155,7 +183,8 @@ RowsA ==
     mf : Plain(Addrs),
     from : FromNone \cup FromOne(Plain(Addrs), Styles) \cup FromMulti({"two", "fields", "group"}, X3)
            \cup FromGroup1(X3),
-    sender : {NoItem} \cup X3 ]
+    sender : {NoItem} \cup X3,
+    chk : {TRUE}, sasl : {Sasl0}, nb : {"absent"}, fam : {"A"} ]
 
 (* family B: spellings against normalisation settings *)
 RowsB ==
@@ -164,9 +193,25 @@ RowsB ==
     auth : [a : {"U"}, v : Vars],
     mf : XV,
     from : FromOne(XV, {"angle"}),
-    sender : {NoItem, Item("self", "upper"), Item("self", "idn"), Item("foreign", "upper")} ]
+    sender : {NoItem, Item("self", "upper"), Item("self", "idn"), Item("foreign", "upper")},
+    chk : {TRUE}, sasl : {Sasl0}, nb : {"absent"}, fam : {"B"} ]
+
+(* family C: the session around the check - null / postmaster envelope senders, envelope-only
+   mode, how the session was authenticated (mechanism, authorization identity), and a
+   neighbour check in the same block *)
+RowsC ==
+  [ tbl : {"identity", "list", "domain", "star"}, norm : {"auto", "precis_casefold", "noop"},
+    auth : {AuthNone, Item("U", "plain"), Item("V", "plain")},
+    mf : Plain({"null", "pm", "self", "peer", "foreign"}) \cup {Item("pm", "upper")},
+    from : FromNone \cup FromOne(Plain({"self", "peer", "foreign"}), {"angle"}),
+    sender : {NoItem},
+    chk : BOOLEAN,
+    sasl : {Sasl0, [mech |-> "PLAIN", az |-> "same"], [mech |-> "PLAIN", az |-> "other"],
+            [mech |-> "LOGIN", az |-> "empty"]},
+    nb : {"absent", "none", "quarantine", "reject"}, fam : {"C"} ]
 
 Rows == (IF "A" \in Families THEN RowsA ELSE {}) \cup (IF "B" \in Families THEN RowsB ELSE {})
+        \cup (IF "C" \in Families THEN RowsC ELSE {})
 
 Init == /\ in \in Rows
         /\ Gen => PrintT(<<"ROW", ToJson(in)>>)
